@@ -1646,6 +1646,12 @@ class Variogram(object):
         _x = x[~np.isnan(y)]
         _y = y[~np.isnan(y)]
 
+        # the fit uncertainties are given per lag class; align them with
+        # the non-empty lag classes that are left
+        _sigma = self.fit_sigma
+        if _sigma is not None and len(_sigma) == len(y):
+            _sigma = np.asarray(_sigma)[~np.isnan(y)]
+
         # check if method is manual and a nugget was passed
         if self.fit_method == 'manual' and kwargs.get(
             'nugget', self._kwargs.get('fit_nugget', False)
@@ -1710,7 +1716,7 @@ class Variogram(object):
                 wrapped,
                 _x, _y,
                 method='trf',
-                sigma=self.fit_sigma,
+                sigma=_sigma,
                 p0=p0,
                 bounds=bounds,
                 **kwargs
@@ -1722,7 +1728,7 @@ class Variogram(object):
                 wrapped,
                 _x, _y,
                 method='lm',
-                sigma=self.fit_sigma,
+                sigma=_sigma,
                 p0=p0,
                 **kwargs
             )
